@@ -277,7 +277,17 @@ async def _tls_session(case: dict) -> dict:
         want_in = b"".join(nudges)
         if reader_task is not None:
             _tls_progress.update(waiting_reader=True, want_in=want_in, got_in=got_in)
-            await wire.wait_until(lambda: len(got_in) >= len(want_in) or reader_task.done())
+            # (polled: the reader appending to got_in does not set the wire's progress event)
+            for _ in range(5000):
+                if len(got_in) >= len(want_in) or reader_task.done():
+                    break
+                wire.kick()
+                await asyncio.sleep(0)
+            else:
+                raise Violation(
+                    "inbound-withheld",
+                    f"the reader task never gets records that reached the transport while a write was waiting for the engine: {bytes(got_in)!r} of {want_in!r}",
+                )
             _tls_progress.update(waiting_reader=False)
             reader_task.cancel()
             await asyncio.gather(reader_task, return_exceptions=True)
